@@ -1405,7 +1405,8 @@ def rule_nonnull_arg(w):
                 if v is None:
                     continue
                 key = "%s/%s(%s=%s)" % (name, e.name, pn[i], a2["n"])
-                if v.get("init") is not None and strip(v["init"]).get("a"):
+                i_0 = strip(v["init"]) if v.get("init") is not None else None
+                if i_0 is not None and not (i_0.get("k") in ("Construct", "TempObj") and not i_0.get("a")):
                     # initialised with a value
                     asg0 = [x for x in fk.events if x.kind == "obj-assign" and x.key == a2["n"] and x.seq < e.seq]
                     if not asg0 and _fresh_nonnull(w, v["init"]):
@@ -1591,10 +1592,10 @@ def rule_patch_part_deduct(w):
     ck = w.ck
     sites = {}
     for fn in w.fns:
-        if not re.search(r"Geometry::RootMeshNode<", fn.cls or "") or fn.tk not in ("inst", "spec", "plain"):
+        if not re.search(r"Geometry::RootMeshNode<", fn.cls or "") or fn.tk not in ("inst", "spec", "plain") or w.norm.inlined.get(fn.full, 0) > 0:
             continue
         fk = None
-        for n in w.norm.orig_nodes(fn):
+        for n in list(fn.nodes()):
             if n.get("k") != "MCall" or not re.match(r"deduct_target_sets_from_(top|bottom)$", n.get("n") or ""):
                 continue
             fk = fk or w.fk(fn)
@@ -1691,7 +1692,15 @@ def rule_patch_reindex(w):
         name = short(fn)
         fk = w.fk(fn)
         out = fn.params[0]["n"] if fn.params else None
-        maps = [n for n in w.norm.orig_nodes(fn) if n.get("k") in ("Call", "MCall") and re.search(r"Intern::PatchIndexMapping<.*>::apply$", n.get("callee") or "")]
+        def is_map(n):
+            return n.get("k") in ("Call", "MCall") and re.search(r"Intern::PatchIndexMapping<.*>::apply$", n.get("callee") or "") is not None
+        maps = [n for n in w.norm.orig_nodes(fn) if is_map(n)]
+        if not maps:
+            # moved into a member helper of the factory: the interprocedural must-pass follows it
+            for n in w.norm.orig_nodes(fn):
+                h = w.findex.lookup(n) if n.get("k") in ("Call", "MCall") else None
+                if h is not None and h is not fn and h.cls == fn.cls and h.body is not None:
+                    maps += [x for x in w.norm.orig_nodes(h) if is_map(x)]
         if len(maps) != 1 or out is None:
             why = elsewhere(fk, (out,), names=C12NAMES) if out else None
             ck.incomplete(R, "%s: %d calls of Intern::PatchIndexMapping::apply%s" % (name, len(maps), ("; " + why) if why else ""))
@@ -1728,8 +1737,8 @@ def rule_patch_reindex(w):
 # Partition / PartitionSet: rank counts and element counts are different kinds
 # -------------------------------------------------------------------------------------------------
 
-def _accessor_kind(w, call):
-    """'Dom' / 'Img' of the elements-at-rank graph `_patches` that a Partition accessor returns, or None"""
+def _accessor_kind(w, call, depth=0):
+    """'Dom' / 'Img' of the elements-at-rank graph `_patches` that a Partition accessor returns (also when it forwards to a twin accessor), or None"""
     callee = w.findex.lookup(call)
     if callee is None or callee.body is None or not re.search(r"Geometry::Partition$", callee.cls or ""):
         return None, None
@@ -1742,6 +1751,15 @@ def _accessor_kind(w, call):
             e = strip(e["a"][0])
     if e is not None and e.get("k") == "MCall" and not e.get("a") and strip(e.get("obj")).get("k") == "Member" and strip(e["obj"]).get("n") == "_patches":
         return {"get_num_nodes_domain": "Dom", "get_num_nodes_image": "Img"}.get(e.get("n")), callee
+    if e is not None and e.get("k") == "MCall" and not e.get("a") and depth < 3:
+        # one accessor forwarding to its twin: `return this->get_num_patches();`
+        o = strip(e.get("obj")) if e.get("obj") is not None else None
+        while o is not None and o.get("k") == "Un" and o.get("op") == "*":
+            o = strip(o.get("e"))
+        if o is None or o.get("k") == "This":
+            k2, c2 = _accessor_kind(w, e, depth + 1)
+            if c2 is not None and c2 is not callee:
+                return k2, callee
     return None, callee
 
 
@@ -1824,6 +1842,15 @@ def rule_sentinel_overflow(w):
         if not sent:
             ck.incomplete(R, "%s: no array filled with numeric_limits<>::max() found" % name)
             continue
+        changed = True
+        while changed:
+            changed = False
+            for n in fn.nodes():
+                if n.get("k") == "Var" and n.get("ref") and n.get("init") is not None and n["d"] not in sent:
+                    i0 = strip(n["init"])
+                    if i0 is not None and i0.get("k") == "Ref" and i0.get("d") in sent:
+                        sent[n["d"]] = sent[i0["d"]]
+                        changed = True
         par = {}
         st = [fn.body]
         while st:
@@ -1832,10 +1859,21 @@ def rule_sentinel_overflow(w):
                 par[id(c)] = x
                 st.append(c)
 
+        fk0 = w.fk(fn)
+
         def elem_of(n):
+            n = strip(n)
+            if n is not None and n.get("k") == "Ref" and n.get("dk") == "local" and not fk0.mut.get(n.get("d")):
+                # `const Index d0 = distances.at(node); ... d0 + 1`
+                v0 = fk0.locals.get(n.get("d"))
+                if v0 is not None and v0.get("init") is not None and not v0.get("ref"):
+                    n = strip(v0["init"])
+                    while n is not None and n.get("k") in ("Construct", "TempObj") and len(n.get("a", [])) == 1:
+                        n = strip(n["a"][0])
             sub = _subscript(n) if n is not None and n.get("k") != "Cast" else None
             if sub is not None and sub[0].get("k") == "Ref" and sub[0].get("d") in sent:
-                return render(strip(n))
+                # (text with the array's own name, so that the key does not depend on the alias a helper uses)
+                return render(strip(n)).replace(sub[0].get("n"), sent[sub[0]["d"]], 1)
             return None
 
         def tests_not_sentinel(cond, etext, positive=True):
@@ -1851,10 +1889,78 @@ def rule_sentinel_overflow(w):
             if c.get("k") == "Bin" and c.get("op") in ("!=", "==", "<", ">="):
                 l, r = strip(c["lhs"]), strip(c["rhs"])
                 for a, b in ((l, r), (r, l)):
-                    if render(a) == etext and _is_limits_max(b):
+                    if (render(a) == etext or elem_of(a) == etext or (a.get("k") == "Ref" and a.get("n") in mirror_for.get(etext, ()))) and _is_limits_max(b):
                         op = c["op"] if positive else {"!=": "==", "==": "!=", "<": ">=", ">=": "<"}[c["op"]]
                         return op in ("!=", "<") and (a is l or op == "!=")
             return False
+        # ---- a priority queue that mirrors the array: key(x) == max - A[x] for every queued x --------------------------------------
+        # Established structurally: the queue is filled with key 0 (= max - max, the array's fill value); every store A[x] = v has, in the same
+        # context and behind it, an update/insert of the queue for the same x with key max - v (v == 0: key max); every other update has such
+        # a store in front of it.  Then a pair  n = Q.front_value(), d = max - Q.front_key()  read from the same queue state satisfies d == A[n],
+        # and a guard on d is a guard on A[n].  Anything that does not fit leaves the mirror unproved (no guard through it is accepted).
+        mirror_for = {}
+        mirror_why = ""
+        queues = {v["d"]: v["n"] for v in fn.nodes() if v.get("k") == "Var" and "mutable_priority_queue" in (fn.type(v.get("t")) or "")}
+        if queues and len(set(sent.values())) == 1:
+            aname = list(sent.values())[0]
+            stores = [e for e in fk0.events if e.kind == "sub" and e.mode == "write" and e.arr is not None and e.arr.key == aname]
+            maxc = None
+            for v in fn.nodes():
+                if v.get("k") == "Var" and v.get("d") in sent and v.get("init") is not None and not v.get("ref"):
+                    maxc = fk0.canon(strip(v["init"])["a"][1])
+            for qd, qn in queues.items():
+                ups = [e for e in fk0.events if e.kind == "call" and e.obj == qn and e.name in ("insert", "update") and len(e.args_canon or []) == 2]
+                other_mut = [e for e in fk0.events if e.kind == "call" and e.obj == qn and e.name not in ("insert", "update", "pop", "size", "count", "front_value", "front_key", "empty")]
+                init_ins = [e for e in ups if e.name == "insert" and e.args_canon[1] == "0"]
+                rest = [e for e in ups if e not in init_ins]
+                okm = bool(init_ins) and not other_mut and maxc is not None and all(st_.op == "=" for st_ in stores)
+
+                def key_of(vc):
+                    return maxc if vc == "0" else "(%s - %s)" % (maxc, vc)
+                for st_ in stores:
+                    if not any(u.seq > st_.seq and frames_key(u.frames) == frames_key(st_.frames) and u.args_canon[0] == st_.idx_canon and u.args_canon[1] == key_of(st_.val_canon) for u in rest):
+                        okm = False
+                        mirror_why = "the store %s[%s] = %s has no matching %s.update(%s, max - value) behind it" % (aname, st_.idx_canon, st_.val_canon, qn, st_.idx_canon)
+                for u in rest:
+                    if not any(st_.seq < u.seq and frames_key(u.frames) == frames_key(st_.frames) and u.args_canon[0] == st_.idx_canon and u.args_canon[1] == key_of(st_.val_canon) for st_ in stores):
+                        okm = False
+                        mirror_why = "%s.%s(%s, %s) is not paired with a store of the mirrored value into %s" % (qn, u.name, u.args_canon[0], u.args_canon[1], aname)
+                # values stored inside loops are sums `A[..] + c` (judged below) or constants: never the sentinel itself
+                for st_ in stores:
+                    vv = strip(st_.val)
+                    vv = fk0._resolve_local(vv) if vv is not None else vv
+                    if not (vv is not None and (vv.get("k") in ("Int",) or (vv.get("k") in ("Construct", "TempObj", "Cast") and not _is_limits_max(vv)) or
+                                                (vv.get("k") == "Bin" and vv.get("op") == "+" and (elem_of(vv["lhs"]) or elem_of(vv["rhs"]))))):
+                        okm = False
+                        mirror_why = "the value %s stored into %s is not a constant / an incremented element" % (st_.val_canon, aname)
+                if not okm:
+                    continue
+                # pairs (n, d) read from one queue state
+                for blk in [x for x in walk(fn.body) if x.get("k") == "Block"]:
+                    nd = dd = None
+                    for st0 in blk.get("s", []):
+                        if st0.get("k") == "Decl" and len(st0.get("vars", [])) == 1:
+                            v0 = st0["vars"][0]
+                            i0 = strip(v0.get("init"))
+                            while i0 is not None and i0.get("k") in ("Construct", "TempObj") and len(i0.get("a", [])) == 1:
+                                i0 = strip(i0["a"][0])
+                            if i0 is not None and i0.get("k") == "MCall" and i0.get("n") == "front_value" and strip(i0.get("obj")).get("d") == qd and not fk0.mut.get(v0["d"]):
+                                nd = v0
+                                continue
+                            if i0 is not None and i0.get("k") == "Bin" and i0.get("op") == "-" and _is_limits_max(i0["lhs"]) and not fk0.mut.get(v0["d"]):
+                                r0 = strip(i0["rhs"])
+                                if r0.get("k") == "MCall" and r0.get("n") == "front_key" and strip(r0.get("obj")).get("d") == qd:
+                                    dd = v0
+                                    continue
+                        if any(x.get("k") == "MCall" and x.get("obj") is not None and strip(x["obj"]).get("k") == "Ref" and strip(x["obj"]).get("d") == qd
+                               and x.get("n") in ("pop", "update", "insert") for x in walk(st0)):
+                            if (nd is None) != (dd is None):
+                                nd = dd = None          # the queue changed between the two reads
+                            if nd is not None and dd is not None:
+                                break
+                    if nd is not None and dd is not None:
+                        for et_ in ("%s.at(%s)" % (aname, nd["n"]), "%s[%s]" % (aname, nd["n"])):
+                            mirror_for.setdefault(et_, set()).add(dd["n"])
         for n in fn.nodes():
             if n.get("k") not in ("Bin", "Assign") or n.get("op") not in ("+", "+="):
                 continue
@@ -1881,12 +1987,20 @@ def rule_sentinel_overflow(w):
                             guarded = True
                 cur = p_
             key = "%s/%s + %s" % (name, et, render(other))
+            if not guarded and mirror_why:
+                # a queue exists whose keys may mirror the array, but the mirror invariant is not established: a guard through the queue is neither accepted nor refuted
+                obs.setdefault(key, []).append((None, "`%s`: no direct test of %s, and the queue/array mirror is not established (%s)" % (render(n)[:50], et, mirror_why), fn.file, n.get("l")))
+                continue
             obs.setdefault(key, []).append((guarded, ("`%s` is only evaluated when %s is not the sentinel" % (render(n)[:50], et)) if guarded else
                                             "`%s`: %s may still be numeric_limits<>::max() ('not reached': the array is filled with it and the node is taken from the queue whatever "
                                             "its distance), and max() + 1 wraps to 0 - the unreached neighbours then look NEAREST to this centre (a mesh whose cells are not all "
                                             "facet-connected: whole components are attached to the wrong centre, other patches stay empty)" % (render(n)[:50], et), fn.file, n.get("l")))
     for key, lst in sorted(obs.items()):
-        bad = [x for x in lst if not x[0]]
+        bad = [x for x in lst if x[0] is False]
+        unk = [x for x in lst if x[0] is None]
+        if unk and not bad:
+            ck.incomplete(R, "%s: %s" % (key, unk[0][1]))
+            continue
         pick = bad[0] if bad else lst[0]
         ck.ob(R, key, not bad, pick[1], pick[2], pick[3])
     if fns and not obs:
@@ -1906,7 +2020,7 @@ def rule_patch_key_fresh(w):
     for fn in w.find(r"Geometry::RootMeshNode<.*>::extract_patch$"):
         fk = w.fk(fn)
         name = re.sub(r"<.*?>::", "::", short(fn).split("(")[0], count=1) + "(" + ",".join(p["n"] for p in fn.params) + ")"
-        for n in w.norm.orig_nodes(fn):
+        for n in list(fn.nodes()):
             if n.get("k") != "MCall" or n.get("n") != "add_patch" or not n.get("a"):
                 continue
             callee = w.findex.lookup(n)
